@@ -119,6 +119,9 @@ pub struct Shared {
     /// cursor moves only inside accept_one (one step per skipped or served handle)
     /// the run is in its drain phase (scripts no longer misbehave by themselves)
     pub draining: Cell<bool>,
+    /// re-creations of failed services wait here until the simulator opens the gate
+    pub restart_gate_open: Cell<bool>,
+    pub restart_gate_wakers: RefCell<Vec<Waker>>,
     pub rr_cursor: Cell<Option<usize>>,
     pub rr_handles: RefCell<Vec<usize>>,
     pub drain_windows: Cell<u64>,
@@ -192,6 +195,8 @@ impl Shared {
             cur_paused: Cell::new(false),
             expect_removed: Cell::new(None),
             draining: Cell::new(false),
+            restart_gate_open: Cell::new(false),
+            restart_gate_wakers: RefCell::new(Vec::new()),
             rr_cursor: Cell::new(None),
             rr_handles: RefCell::new(Vec::new()),
             drain_windows: Cell::new(0),
@@ -614,6 +619,16 @@ impl<S: PeerKey> Future for FactFut<S> {
         }
         let sh = shared();
         let slot = sh.current_slot.get().expect("service created outside a worker context");
+        if sh.cfg.gated_restart && !sh.restart_gate_open.get() {
+            // a re-creation (this worker already built a service for the listener) that takes as
+            // long as the simulator wants
+            let again = sh.instances.borrow().iter().any(|i| i.slot == slot && i.listener == self.listener);
+            if again {
+                sh.restart_gate_wakers.borrow_mut().push(cx.waker().clone());
+                sh.ctx(|ctx| ctx.bump("probe.restart_waiting_at_gate"));
+                return Poll::Pending;
+            }
+        }
         if sh.cfg.factory_fails_on_restart && !sh.draining.get() {
             // re-creation of a failed service (this worker already built one for the listener)
             let again = sh.instances.borrow().iter().any(|i| i.slot == slot && i.listener == self.listener);
